@@ -1,6 +1,24 @@
 (* C01 — query results follow spec field collection and completion (static schemas). *)
-From AG Require Import ExecCheck ExecWitness.
+From AG Require Import ExecCheck ExecWitness ExecProofs.
 Open Scope N_scope.
+
+(* With every recorded deviation switched off, the executor model returns
+   exactly the data of the specification's execution algorithm: for all
+   schemas (registry-consistent), worlds, documents, operations, variables and
+   fuel.  So each way today's code departs from the specification is one of
+   the seven flags, and the per-case verdict attributes a mismatch to the
+   first flag whose removal changes the result. *)
+Theorem C01_corrected_refines_spec : forall S w d opname vars n r1 r2,
+    wf_implements S -> wf_types S ->
+    impl_exec quirks_none S w d opname vars n = Ok r1 ->
+    spec_exec S w d opname vars n = Ok r2 ->
+    rs_data r1 = rs_data r2.
+Proof. exact corrected_refines_spec. Qed.
+
+(* a non-null position never holds null in the specification's result *)
+Theorem C01_spec_nonnull_never_null : forall S w frags vars vdefs n t' o sub p v es tr,
+    s_complete S w frags vars vdefs n (TNonNull t') o sub p = Ok (RVal v, es, tr) -> v <> VNull.
+Proof. exact spec_nonnull_never_null. Qed.
 
 (* known findings: the statement is false of the faithful model (witnesses replayed on the real code) *)
 Theorem C01_skip_default_refuted :
@@ -34,6 +52,14 @@ Theorem C01_nonvacuous :
   errs_of (impl_exec quirks_today m_schema wn dn None [] 50) = Some [].
 Proof. exact w_nonvacuous. Qed.
 
+Check C01_corrected_refines_spec : forall S w d opname vars n r1 r2,
+    wf_implements S -> wf_types S ->
+    impl_exec quirks_none S w d opname vars n = Ok r1 ->
+    spec_exec S w d opname vars n = Ok r2 ->
+    rs_data r1 = rs_data r2.
+
+Print Assumptions C01_corrected_refines_spec.
+Print Assumptions C01_spec_nonnull_never_null.
 Print Assumptions C01_skip_default_refuted.
 Print Assumptions C01_union_cond_refuted.
 Print Assumptions C01_nan_refuted.
